@@ -819,6 +819,9 @@ func (ch *clientHost) checkRedirect(repo string, orig func(req *http.Request, vi
 			if err != nil {
 				return err
 			}
+		} else {
+			// net/http keeps the header when only the scheme of the same host changes
+			req.Header.Del("Authorization")
 		}
 		// wrap original redirect check
 		if orig != nil {
